@@ -88,7 +88,9 @@ HasAny(seq, S) == \E i \in 1 .. Len(seq) : seq[i] \in S
    fls    [...]                 send_poll_flush, fields as rdy
    brcv / brdy / bsta / bfls    the same four calls on Buffered<T>; ic = the calls Buffered made on
                                 the scripted inner transport, as records [c, r, m]
-   panic / hang                 the code under test panicked / did not return (real traces only)
+   panic / hang / empty         the code under test panicked / did not return / returned an empty
+                                spare slice under the usage contract (real traces only)
+   ("woke" in ev: the waker was invoked during the call -- a Pending result is then legitimate)
 
    s, fs, x are inputs of the replay (I/O script) or conformance data; the observer ignores them. *)
 
@@ -118,7 +120,7 @@ ObsSend(o, e) ==   \* rdy and fls
         IF HasAny(e.ev, {"w0", "werr", "ferr"}) THEN [o1 EXCEPT !.dead = TRUE]
         ELSE Fail(o1, "send path returned an error although the I/O object reported none")
     ELSE IF e.r = "pend" THEN
-        IF HasAny(e.ev, {"wpend", "fpend"}) THEN o1
+        IF HasAny(e.ev, {"wpend", "fpend", "woke"}) THEN o1
         ELSE Fail(o1, "send path returned Pending although no I/O call was pending (lost wake-up)")
     ELSE IF e.t = "fls" /\ o1.wtot # EndOf(o.out, o.started) THEN
         Fail(o1, "flush returned Ok before all earlier messages were written")
@@ -133,7 +135,7 @@ ObsRecv(o, e) ==
         ELSE Fail(o1, "receive returned an error although the I/O object reported none")
     ELSE \* "pend"
         IF Has(e.ev, "eof") THEN Fail(o1, "end of stream not reported as an error")
-        ELSE IF ~Has(e.ev, "pend") THEN Fail(o1, "receive returned Pending although no read was pending (lost wake-up)")
+        ELSE IF ~HasAny(e.ev, {"pend", "woke"}) THEN Fail(o1, "receive returned Pending although no read was pending (lost wake-up)")
         ELSE IF NextComplete(o1) THEN Fail(o1, "receive returned Pending although a complete message was supplied")
         ELSE o1
 
@@ -187,6 +189,7 @@ ObsStep(o, e) ==
     ELSE IF ~o.ok \/ o.dead THEN o            \* after an error the transport is unusable; after a violation: silent until reset
     ELSE IF e.t = "panic" THEN Fail(o, "panic in the code under test")
     ELSE IF e.t = "hang" THEN Fail(o, "the code under test did not return")
+    ELSE IF e.t = "empty" THEN Fail(o, "spare_capacity_mut returned an empty slice although next_message had returned None")
     ELSE IF e.t \in {"ext", "spw"} THEN
         IF o.fed + e.n > Total(o.in) THEN Fail(o, "harness: more bytes fed than the stream has")
         ELSE [o EXCEPT !.fed = @ + e.n]
